@@ -187,7 +187,11 @@ def predicates(case, out, nslots):
     mode, procs, ids, tab = case.mode, case.procs, case.ids, case.tab
     bad = []
     if out.split()[:1] == ["2"]:
-        return [("reg-hang", "the registrations did not all return (deadline): " + case.describe())]
+        f = out.split()
+        why = {"1": "an event the controller was waiting for (a schedule point, a return, the lock going to a queued call) did not arrive",
+               "2": "a worker process did not finish its start-up", "3": "a worker process did not acknowledge a new call",
+               "4": "a call of a later phase, issued when nothing else was in flight, did not return"}.get(f[2], "") if len(f) > 2 and f[1] == "77" else "deadline of the driver"
+        return [("reg-hang", "the registrations did not all return, also when run alone with 8 times longer waits (%s): %s trace so far=%s" % (why, case.describe(), " ".join(f[3:])[:600]))]
     p = parse(out)
     if p is None:
         return [("reg-driver", "unexpected driver output %s" % out[:200])]
@@ -285,7 +289,15 @@ def stress_predicates(pool, tab, shape, out, nslots, njoin=0, rounds=1):
     return bad, stats
 
 
+RERUN = {"reported": 0, "rerun": 0, "returned_on_rerun": 0}
+
+
 def run_cases(impl, lines, par=8):
+    """runs the cases in par driver processes. "Did not return" (status 2) is a verdict that depends on a deadline, and the
+    controller's waits (8-10 s for an event of a worker) can be exceeded on a machine that is busy with other things: every
+    case reported as hung is therefore run again ALONE, with all waits of the controller 8 times as long and a 10 minute
+    deadline, and only what still does not return then is a hang. (When the first 3 re-runs all hang again the stall is
+    taken as systematic and the remaining reports stand as they are, so that a broken tree costs minutes, not hours.)"""
     chunks = [lines[i::par] for i in range(par)]
     with concurrent.futures.ThreadPoolExecutor(par) as ex:
         outs = list(ex.map(lambda ch: vf.run_impl(impl, "C15", ch, deadline_ms=60000) if ch else [], chunks))
@@ -293,6 +305,20 @@ def run_cases(impl, lines, par=8):
     for k, ch in enumerate(outs):
         for j, o in enumerate(ch):
             io[k + par * j] = o
+    hung = [k for k, o in enumerate(io) if o.split()[:1] in (["2"], ["7"])]
+    RERUN["reported"] += len(hung)
+    confirmed = 0
+    for n, k in enumerate(hung):
+        if n >= 3 and confirmed == n:
+            break
+        o = vf.run_impl(impl, "C15", [lines[k]], deadline_ms=600000, env={"VERIF_C15_TIMEOUT_SCALE": "8"})[0]
+        vf.ipc_cleanup()
+        RERUN["rerun"] += 1
+        if o.split()[:1] == ["2"]:
+            confirmed += 1
+        else:
+            RERUN["returned_on_rerun"] += 1
+        io[k] = o
     return io
 
 
@@ -535,6 +561,7 @@ def main():
             c.violation(key, desc, {"cases": [line], "got": o[:3000], "nslots": nslots})
         c.nontrivial(("stress", sh, nj, tuple(pool), tuple(sorted(st.items()))))
     c.cov["stress_call_results"] = sstats
+    c.cov["did_not_return(reported under parallel load / re-run alone with 8x waits / returned on the re-run)"] = [RERUN["reported"], RERUN["rerun"], RERUN["returned_on_rerun"]]
     for k in (0, nw + 5, n2 + 1, nsingle + 5, nh2 + 1, nhist + 7, njoin2 + 1, njoin + 40, nleave2 + 1):
         c.sample({"kind": kinds[k], "history": cases[k].describe(), "observed": io[k][:400]})
 
@@ -550,6 +577,7 @@ def main():
                   "a case is non-trivial/distinct by its (shape, process assignment, ids, table fill, observed event trace)",
              assumptions=["semop(2) on the passwd semaphore is an atomic P/V granting exclusivity; one DoSearchUserRaw / SetUserID / .PASSWDS record write is one atomic step of the model (the controller serialises the threads at the schedule points)",
                           "tryCleanUser is a no-op during the runs (.fresh is recent): account expiry is C03's subject",
+                          "a call that has not produced the event the controller waits for after 8 s - and, run again alone, after 64 s - never returns (status 2 is only kept when the re-run alone with 8 times longer waits hangs as well)",
                           "SEM_UNDO: when a process goes away (exit or SIGKILL) the kernel adds its per-process adjustment to the semaphore before the parent's wait returns; the harness stops a process only while its calls are parked at the schedule points, in semop, or not started",
                           "a call whose process went away after it had written the index and .PASSWDS (seen at reg.beforeUnlock) holds its slot and id although it never returned",
                           "free slots are chained in ascending order after a load (the model takes the lowest free slot; checked by the trace validation)"])
